@@ -37,3 +37,17 @@ let () = register "rem" (fun args -> match args with
         Printf.sprintf "1 %d" (first 0) end
       else "0"
   | _ -> "usage")
+
+(* refw <a|w> <buf hex> <sexp...> -> like "re", keeping at each offset only the lengths whose match is delimited as a full word
+   (Spec/TextSpec.v fullword_ascii / fullword_wide); "!" after an entry: some admissible length at that offset was filtered out *)
+let () = register "refw" (fun args -> match args with
+  | mode :: buf :: rest -> let (r, _) = p_re rest in
+      let b = unhex buf in
+      let fw o l = if mode = "w" then fullword_wide b o l else fullword_ascii b o l in
+      String.concat ";" (List.filter (fun s -> s <> "") (List.map (fun (o, ls) ->
+          let keep = List.filter (fun l -> fw o l) ls in
+          let part = List.length keep <> List.length ls in
+          if keep = [] && not part then "" else
+          Printf.sprintf "%d:%s%s" (int_of_nat o) (String.concat "," (List.map (fun l -> string_of_int (int_of_nat l)) keep)) (if part then "!" else ""))
+        (re_matches_all b r)))
+  | _ -> "usage")
